@@ -89,21 +89,34 @@ def obsJson (revs : List Rev) (w : World) (i : Nat) (o : Out) : Json :=
     ("refs", .num (if live then st.refs else 0)),
     ("exists", .bool live)]
 
-/-- run a history, collecting the per-step observation and the model-side property verdict -/
-def runObs (feature : Bool) (revs : List Rev) : World → List Step → List Json × Bool
+/-- model-side property verdict of one step taken from world `w` -/
+def stepOk (feature : Bool) (revs : List Rev) (w : World) (s : Step) (o : Out) : Bool :=
+  let i := stepIdx s
+  match o.est, revs[i]? with
+  | some os, some r =>
+    (match parse r.docs with
+     | some p => os == p.objs && specOK r.ptype p && (r.ignore || compatible p)
+     | none => false) &&
+    (!feature || ((w.sts[i]?).map (fun st => st.verif.isTrue)).getD false)
+  | _, _ => true
+
+/-- run a history, collecting the per-step observation and the model-side property
+verdict.  A step flagged `par` ran concurrently with the next one: both are taken in
+sequence (they commute, `reconciles_commute`) and both observations show the world
+after the pair. -/
+def runObs (feature : Bool) (revs : List Rev) : World → List (Step × Bool) → List Json × Bool
   | _, [] => ([], true)
-  | w, s :: ss =>
+  | w, (s1, true) :: (s2, _) :: ss =>
+    let (w1, o1) := w.step true feature revs s1
+    let (w2, o2) := w1.step true feature revs s2
+    let ok := stepOk feature revs w s1 o1 && stepOk feature revs w1 s2 o2
+    let (js, ok') := runObs feature revs w2 ss
+    (obsJson revs w2 (stepIdx s1) o1 :: obsJson revs w2 (stepIdx s2) o2 :: js, ok && ok')
+  | w, (s, _) :: ss =>
     let (w', o) := w.step true feature revs s
-    let i := stepIdx s
-    let ok := match o.est, revs[i]? with
-      | some os, some r =>
-        (match parse r.docs with
-         | some p => os == p.objs && specOK r.ptype p && (r.ignore || compatible p)
-         | none => false) &&
-        (!feature || ((w.sts[i]?).map (fun st => st.verif.isTrue)).getD false)
-      | _, _ => true
+    let ok := stepOk feature revs w s o
     let (js, ok') := runObs feature revs w' ss
-    (obsJson revs w' i o :: js, ok && ok')
+    (obsJson revs w' (stepIdx s) o :: js, ok && ok')
 
 def buildObs (revs : List Rev) : Json × Bool :=
   match revs with
@@ -124,7 +137,9 @@ def handler : Handler := fun scn =>
     let (j, ok) := buildObs revs
     .ok (j, ok, "")
   else do
-    let steps ← (arr scn "steps").mapM stepOf
+    let steps ← (arr scn "steps").mapM fun j => do
+      let s ← stepOf j
+      pure (s, bool j "par")
     let pres := (arr scn "revs").map fun j => str j "pre"
     let cache : Cache := (revs.zip pres).foldl (fun c (r, pre) => match preEntry r pre with | some e => c.put r.id e | none => c) Cache.empty
     let w : World := { cache := cache, sts := revs.map fun _ => {} }
